@@ -230,6 +230,8 @@ def signature_rules(ctx, facts):
 
 
 def resetbefore(ctx, facts):
+    from . import C13
+    C13.require_verified_reset(ctx, facts, [C13.FY], "RESETBEFORE")
     fid = POM + "hash_set"
     fn = facts.fn(fid)
     t = tree_of(fn)
